@@ -371,9 +371,9 @@ def run_check(module, tier: str, seed: int, replay: str | None = None) -> int:
 
     if os.environ.get("VERIF_DEBUG"):
         for d in ctx.disagreements[: int(os.environ["VERIF_DEBUG"])]:
-            print("DISAGREE", json.dumps(d, default=str)[:1500])
+            print("DISAGREE", d["what"], "| model:", str(d["model"])[:700], "| impl:", str(d["impl"])[:700], "| case:", json.dumps(d["case"], default=str)[:500])
         for f in ctx.failures[: int(os.environ["VERIF_DEBUG"])]:
-            print("FAIL", json.dumps(f, default=str)[:600])
+            print("FAIL", f["signature"], "|", f["what"][:300], "|", json.dumps(f["case"], default=str)[:900])
     findings = load_findings(prop_id)
     listed = {e["signature"]: e for e in findings if e.get("status") == "finding"}
     violations = 0
